@@ -136,12 +136,59 @@ type storeCase struct {
 	batch    int
 	chunk    int
 	file     bool
+	obs      bool // stores are built with every construction option: logger, metrics hook, own HTTP client, timeout, context
+	hook     *sqlHook
 	insts    map[int]*storeInst
 	cur      *storeInst
 	lastEvs  []*eb.StoredEvent
 	lastNext string
 	tmp      string
 }
+
+// sqlHook is a MetricsHook and Logger for the SQLite store: it counts, and remembers whether an error was reported
+type sqlHook struct {
+	mu                                   sync.Mutex
+	appends, appendErrs, reads, readErrs int
+	saves, saveErrs, loads, loadErrs     int
+	logs                                 int
+}
+
+func (h *sqlHook) OnAppend(d time.Duration, err error) {
+	h.mu.Lock()
+	defer h.mu.Unlock()
+	h.appends++
+	if err != nil {
+		h.appendErrs++
+	}
+}
+func (h *sqlHook) OnRead(d time.Duration, n int, err error) {
+	h.mu.Lock()
+	defer h.mu.Unlock()
+	h.reads++
+	if err != nil {
+		h.readErrs++
+	}
+}
+func (h *sqlHook) OnSaveOffset(d time.Duration, err error) {
+	h.mu.Lock()
+	defer h.mu.Unlock()
+	h.saves++
+	if err != nil {
+		h.saveErrs++
+	}
+}
+func (h *sqlHook) OnLoadOffset(d time.Duration, err error) {
+	h.mu.Lock()
+	defer h.mu.Unlock()
+	h.loads++
+	if err != nil {
+		h.loadErrs++
+	}
+}
+func (h *sqlHook) Debug(msg string, args ...any) { h.mu.Lock(); h.logs++; h.mu.Unlock() }
+func (h *sqlHook) Info(msg string, args ...any)  { h.mu.Lock(); h.logs++; h.mu.Unlock() }
+func (h *sqlHook) Error(msg string, args ...any) { h.mu.Lock(); h.logs++; h.mu.Unlock() }
+func (h *sqlHook) Printf(format string, v ...any) { h.mu.Lock(); h.logs++; h.mu.Unlock() }
 
 func (sc *storeCase) newInst() (*storeInst, error) {
 	switch sc.kind {
@@ -160,6 +207,12 @@ func (sc *storeCase) newInst() (*storeInst, error) {
 		var opts []ebsql.Option
 		if sc.batch > 0 {
 			opts = append(opts, ebsql.WithStreamBatchSize(sc.batch))
+		}
+		if sc.obs {
+			if sc.hook == nil {
+				sc.hook = &sqlHook{}
+			}
+			opts = append(opts, ebsql.WithLogger(sc.hook), ebsql.WithMetricsHook(sc.hook), ebsql.WithAutoMigrate(true), ebsql.WithBusyTimeout(3*time.Second))
 		}
 		s, err := ebsql.New(path, opts...)
 		if err != nil {
@@ -184,7 +237,19 @@ func (sc *storeCase) newInst() (*storeInst, error) {
 			}
 			mux.ServeHTTP(w, r)
 		}))
-		s, err := ebds.New(srv.URL+"/v1/stream", "s")
+		var s *ebds.Store
+		var err error
+		if sc.obs {
+			if sc.hook == nil {
+				sc.hook = &sqlHook{}
+			}
+			cctx, cancel := context.WithCancel(context.Background())
+			s, err = ebds.NewWithContext(cctx, srv.URL+"/v1/stream", "s", ebds.WithHTTPClient(&http.Client{Transport: &http.Transport{}}),
+				ebds.WithTimeout(20*time.Second), ebds.WithContentType("application/json"), ebds.WithLogger(sc.hook))
+			cancel() // the construction context is over: it must not be the context of any later call
+		} else {
+			s, err = ebds.New(srv.URL+"/v1/stream", "s")
+		}
 		if err != nil {
 			srv.Close()
 			return nil, err
@@ -300,6 +365,8 @@ func storeDomain(lines []string) []string {
 					sc.chunk = atoi(kv[6:])
 				case kv == "file":
 					sc.file = true
+				case kv == "obs":
+					sc.obs = true
 				}
 			}
 			in, err := sc.newInst()
